@@ -31,14 +31,16 @@ EXTENDS Rational, Sequences, FiniteSets, TLC, Json
 (* ------------------------------------------------------------------------ *)
 (* atoms                                                                     *)
 (* ------------------------------------------------------------------------ *)
-NA == 28
+NA == 31
 NG == 4
 NP == 4
 Primes == <<2, 3, 5, 127>>
 PBits == <<1, 2, 3, 7>>          \* ceil(log2 p)
-AtomName == <<"xla", "xlb", "xlc", "xta", "xtb", "xnq", "km", "cm", "ft", "min", "percent", "degree", "arcmin", "xst", "radian", "xls", "xlt", "xlh", "xli", "fm", "pm", "fs", "ps", "Zm", "Ym", "eV", "keV", "MeV">>
-\* dimension group: 1 length, 2 time, 3 angle, 4 energy, 0 dimensionless
-AtomGrp == <<1, 1, 1, 2, 2, 0, 1, 1, 1, 2, 0, 3, 3, 3, 3, 1, 1, 1, 1, 1, 1, 2, 2, 1, 1, 4, 4, 4>>
+AtomName == <<"xla", "xlb", "xlc", "xta", "xtb", "xnq", "km", "cm", "ft", "min", "percent", "degree", "arcmin", "xst", "radian", "xls", "xlt", "xlh", "xli", "fm", "pm", "fs", "ps", "Zm", "Ym", "eV", "keV", "MeV", "lat", "lon", "xva">>
+\* dimension group: 1 length, 2 time, 3 angle, 4 energy, 0 dimensionless, 5 compound (no pairwise-cancellation model)
+AtomGrp == <<1, 1, 1, 2, 2, 0, 1, 1, 1, 2, 0, 3, 3, 3, 3, 1, 1, 1, 1, 1, 1, 2, 2, 1, 1, 4, 4, 4, 3, 3, 5>>
+\* dimension of each atom as exponents of <<length, time, angle, energy>> (xva is a velocity: the only compound atom)
+AtomDim == << <<1, 0, 0, 0>>, <<1, 0, 0, 0>>, <<1, 0, 0, 0>>, <<0, 1, 0, 0>>, <<0, 1, 0, 0>>, <<0, 0, 0, 0>>, <<1, 0, 0, 0>>, <<1, 0, 0, 0>>, <<1, 0, 0, 0>>, <<0, 1, 0, 0>>, <<0, 0, 0, 0>>, <<0, 0, 1, 0>>, <<0, 0, 1, 0>>, <<0, 0, 1, 0>>, <<0, 0, 1, 0>>, <<1, 0, 0, 0>>, <<1, 0, 0, 0>>, <<1, 0, 0, 0>>, <<1, 0, 0, 0>>, <<1, 0, 0, 0>>, <<1, 0, 0, 0>>, <<0, 1, 0, 0>>, <<0, 1, 0, 0>>, <<1, 0, 0, 0>>, <<1, 0, 0, 0>>, <<0, 0, 0, 1>>, <<0, 0, 0, 1>>, <<0, 0, 0, 1>>, <<0, 0, 1, 0>>, <<0, 0, 1, 0>>, <<1, -1, 0, 0>> >>
 \* scale = prod Primes[p]^AtomPV[i][p].  The x.. atoms live in a custom registry with power-of-two scales (float
 \* arithmetic is exact; names chosen so that unyt does not resolve them by itself).  Angles are measured in degrees in
 \* the model; xst is a custom unit of 15 degrees; a number in radian is carried in the model as a multiple of pi/12 (the
@@ -73,9 +75,17 @@ AtomPV == << <<0, 0, 0, 0>>,
              <<24, 0, 24, 0>>,
              <<0, 0, 0, 0>>,
              <<3, 0, 3, 0>>,
-             <<6, 0, 6, 0>> >>
-AtomDyadic == <<TRUE, TRUE, TRUE, TRUE, TRUE, TRUE, FALSE, FALSE, FALSE, FALSE, FALSE, FALSE, FALSE, FALSE, FALSE, TRUE, TRUE, TRUE, TRUE, FALSE, FALSE, FALSE, FALSE, FALSE, FALSE, FALSE, FALSE, FALSE>>
+             <<6, 0, 6, 0>>,
+             <<0, 0, 0, 0>>,
+             <<0, 0, 0, 0>>,
+             <<3, 0, 0, 0>> >>
+AtomDyadic == <<TRUE, TRUE, TRUE, TRUE, TRUE, TRUE, FALSE, FALSE, FALSE, FALSE, FALSE, FALSE, FALSE, FALSE, FALSE, TRUE, TRUE, TRUE, TRUE, FALSE, FALSE, FALSE, FALSE, FALSE, FALSE, FALSE, FALSE, FALSE, FALSE, FALSE, TRUE>>
 StAtom == 14
+\* angle units with a zero point: angle in degrees = 90 - x (lat), x + 180 (lon).  They take part in trig only (what a sum
+\* of a point and a difference means is affine-space semantics, which C04 does not state)
+LatAtom == 29
+LonAtom == 30
+CompAtom == 31
 
 (* a unit = exponents x6 over the atoms (x6 keeps 1/2 and 1/3 integral) *)
 UOne == [i \in 1..NA |-> 0]
@@ -85,17 +95,20 @@ UDiv(a, b) == [i \in 1..NA |-> a[i] - b[i]]
 UPowOk(a, n, d) == \A i \in 1..NA : (a[i] * n) % d = 0
 UPow(a, n, d) == [i \in 1..NA |-> (a[i] * n) \div d]
 UIntegral(a) == \A i \in 1..NA : a[i] % 6 = 0
+HasOffset(a) == a[LatAtom] # 0 \/ a[LonAtom] # 0
+\* units whose pairwise cancellation (_cancel_mul) is transcribed: integral exponents, no compound atom
+Simple(a) == UIntegral(a) /\ a[CompAtom] = 0
 UDyadic(a) == \A i \in 1..NA : a[i] # 0 => AtomDyadic[i]
 RECURSIVE SumF(_, _)
 SumF(f, n) == IF n = 0 THEN 0 ELSE f[n] + SumF(f, n - 1)
 IAbs(x) == IF x < 0 THEN -x ELSE x
 \* scale of a unit: prime exponents x6
 \* (unrolled from AtomPV / AtomGrp for speed, as balanced sums to keep TLC's evaluation stack shallow; ASSUME below checks it)
-SV(u) == <<((((5 * u[2] + (-3) * u[3]) + (4 * u[5] + ((-2) * u[6] + 3 * u[7]))) + (((-2) * u[8] + ((-1) * u[9] + 2 * u[10])) + ((-2) * u[11] + ((-2) * u[13] + (-60) * u[16])))) + ((((-55) * u[17] + 70 * u[18]) + (75 * u[19] + ((-15) * u[20] + (-12) * u[21]))) + (((-15) * u[22] + ((-12) * u[23] + 21 * u[24])) + (24 * u[25] + (3 * u[27] + 6 * u[28]))))), ((u[9] + u[10]) + ((-1) * u[13] + (u[14] + u[15]))), ((((3 * u[7] + (-2) * u[8]) + ((-4) * u[9] + u[10])) + (((-2) * u[11] + (-1) * u[13]) + (u[14] + u[15]))) + ((((-15) * u[20] + (-12) * u[21]) + ((-15) * u[22] + (-12) * u[23])) + ((21 * u[24] + 24 * u[25]) + (3 * u[27] + 6 * u[28])))), u[9]>>
+SV(u) == <<((((5 * u[2] + (-3) * u[3]) + (4 * u[5] + ((-2) * u[6] + 3 * u[7]))) + (((-2) * u[8] + ((-1) * u[9] + 2 * u[10])) + ((-2) * u[11] + ((-2) * u[13] + (-60) * u[16])))) + ((((-55) * u[17] + (70 * u[18] + 75 * u[19])) + ((-15) * u[20] + ((-12) * u[21] + (-15) * u[22]))) + (((-12) * u[23] + (21 * u[24] + 24 * u[25])) + (3 * u[27] + (6 * u[28] + 3 * u[31]))))), ((u[9] + u[10]) + ((-1) * u[13] + (u[14] + u[15]))), ((((3 * u[7] + (-2) * u[8]) + ((-4) * u[9] + u[10])) + (((-2) * u[11] + (-1) * u[13]) + (u[14] + u[15]))) + ((((-15) * u[20] + (-12) * u[21]) + ((-15) * u[22] + (-12) * u[23])) + ((21 * u[24] + 24 * u[25]) + (3 * u[27] + 6 * u[28])))), u[9]>>
 \* dimension of a unit: exponents x6 of <<length, time, angle, energy>>
-DV(u) == <<(((u[1] + (u[2] + u[3])) + ((u[7] + u[8]) + (u[9] + u[16]))) + ((u[17] + (u[18] + u[19])) + ((u[20] + u[21]) + (u[24] + u[25])))), ((u[4] + u[5]) + (u[10] + (u[22] + u[23]))), ((u[12] + u[13]) + (u[14] + u[15])), (u[26] + (u[27] + u[28]))>>
+DV(u) == <<(((u[1] + (u[2] + u[3])) + ((u[7] + u[8]) + (u[9] + u[16]))) + (((u[17] + u[18]) + (u[19] + u[20])) + ((u[21] + u[24]) + (u[25] + u[31])))), ((u[4] + (u[5] + u[10])) + (u[22] + (u[23] + (-1) * u[31]))), ((u[12] + (u[13] + u[14])) + (u[15] + (u[29] + u[30]))), (u[26] + (u[27] + u[28]))>>
 SVdef(u) == [p \in 1..NP |-> SumF([i \in 1..NA |-> u[i] * AtomPV[i][p]], NA)]
-DVdef(u) == [g \in 1..NG |-> SumF([i \in 1..NA |-> IF AtomGrp[i] = g THEN u[i] ELSE 0], NA)]
+DVdef(u) == [g \in 1..NG |-> SumF([i \in 1..NA |-> u[i] * AtomDim[i][g]], NA)]
 ASSUME \A i \in 1..NA : SV(UAtom(i)) = SVdef(UAtom(i)) /\ DV(UAtom(i)) = DVdef(UAtom(i))
 
 DZero3 == <<0, 0, 0, 0>>     \* (the name predates the energy group)
@@ -290,12 +303,16 @@ RefVals(op, meth, A, B, p, ur) ==
          LET q == PowOf(op, p)  c == PVRat(VSub(VScale(s0, q[1]), VScale(sr, q[2]))) IN
          Map1(LAMBDA x : CRoot(CMul(CPowInt(x, q[1]), c), q[2]), a)
     [] op \in Trig ->
-         LET c == PVRat(VSub(s0, SV(UAtom(StAtom)))) IN Map1(LAMBDA x : TrigVal(op, CMul(x, c)), a)
+         \* the angle itself (for lat/lon: through the zero point), in steps of 15 degrees
+         LET c == PVRat(VSub(s0, SV(UAtom(StAtom))))
+             ang(x) == IF A.u = UAtom(LatAtom) THEN CSub(G(R(90)), x) ELSE IF A.u = UAtom(LonAtom) THEN CAdd(x, G(R(180))) ELSE x IN
+         Map1(LAMBDA x : TrigVal(op, CMul(ang(x), c)), a)
 
 \* is the step inside the claim?  (commensurable operands where the mathematics needs them)
 InClaim(op, meth, A, B) ==
   /\ op \in HomBin \cup CmpBin \cup DivMod \cup {"floor_divide"} => (B.k # "x" /\ SameDim(A, B))
-  /\ op \in Trig => DV(A.u) = DAngle1
+  /\ op \in Trig => DV(A.u) = DAngle1 /\ (HasOffset(A.u) => A.u \in {UAtom(LatAtom), UAtom(LonAtom)})
+  /\ op \notin Trig => ~(HasOffset(A.u) \/ HasOffset(B.u))
 
 \* a number in radian is carried as a multiple of pi/12: an operation that floors RAW numbers of operands in different
 \* units (what the transcription of floor_divide / divmod does) cannot be followed through that change of variable
@@ -341,7 +358,7 @@ PVerdict(op, meth, A, B, p, Rs) ==
 \* is left; which of several equivalent pairs goes first is sympy's business, so the relation admits
 \* every outcome: within a dimension group only factors of the sign of the net exponent survive, each
 \* at most as often as it occurred; dimensionless atoms cancel pairwise whatever their sign.
-GrpNet(u, g) == DV(u)[g]
+GrpNet(u, g) == SumF([i \in 1..NA |-> IF AtomGrp[i] = g THEN u[i] ELSE 0], NA)
 GrpCount(u, g) == SumF([i \in 1..NA |-> IF AtomGrp[i] = g THEN IAbs(u[i]) ELSE 0], NA)
 ValidCancel(uin, ur) ==
   /\ \A g \in 1..NG : LET net == GrpNet(uin, g) IN
@@ -383,7 +400,7 @@ MulUnitIn(op, meth, A, B) ==
 ImplUnit(op, meth, A, B, p) ==       \* canonical result unit of the transcription
   CASE op \in MulBin \cup {"dot"} /\ meth # "reduce" ->
          LET uin == MulUnitIn(op, meth, A, B)
-             c == IF UIntegral(uin) THEN Cancel(uin) ELSE uin IN
+             c == IF Simple(uin) THEN Cancel(uin) ELSE uin IN
          IF Step6(A.u, B.u, c) THEN UOne ELSE c
     [] op \in MulBin -> MulUnitIn(op, meth, A, B)         \* reduce: unit ** n, no simplification
     [] op \in PowUn \cup {"power"} -> LET q == PowOf(op, p) IN UPow(A.u, q[1], q[2])
@@ -423,7 +440,7 @@ TVerdict(op, meth, A, B, p, Rs) ==
              IF ImplBare(op) THEN TRUE
              ELSE IF op \in MulBin \cup {"dot"} /\ meth # "reduce" THEN
                     LET uin == MulUnitIn(op, meth, A, B) IN
-                    IF ~UIntegral(uin) THEN DV(Rs.u) = DV(uin)
+                    IF ~Simple(uin) THEN DV(Rs.u) = DV(uin)
                     ELSE \/ ValidCancel(uin, Rs.u)
                          \/ (Rs.u = UOne /\ DV(uin) = DZero3 /\ DV(A.u) # DZero3 /\ DV(A.u) = DV(B.u))
                          \* unyt_array.dot / np.dot / vdot / inner multiply the units without simplifying
